@@ -67,10 +67,10 @@ def gen_scenario(rng):
         labs = sorted({n[1] for g in world["graphs"].values() for n in g["nodes"] if n[1]})
         for t in turns:
             t["text"] = " ".join(rng.sample(labs, min(len(labs), 3))) + " " + t["text"]
-    if rng.random() < 0.15:
+    if rng.random() < 0.2:
         # logical clock at / around the epoch (now_ms = 0 is a legal logical time): memories dated relative to it
         import datetime as _dt
-        base = rng.choice([0, 0, 1000, 86400000])
+        base = rng.choice([0, 0, 0, 1000])
         turns = gen_turns(rng, world, base_ms=base)
         for j, e in enumerate(world["eps"]):
             e["ts"] = (_dt.datetime.fromtimestamp(base / 1000, tz=_dt.timezone.utc) - _dt.timedelta(days=(j * 7) % 50, hours=j)).isoformat().replace("+00:00", "Z")
